@@ -316,6 +316,15 @@ def _t_rec_switch_label_changes(rng, I):
             N([['r', ['rec', 1, 5, mx]]])]
 
 
+def _t_case_shared_with_candidate(rng, I):
+    # the selected switch case (2) is also an ancestor of the first one-of candidate (4) and may fail; the one-of scope usually
+    # reaches it first (the decider 1 is a sibling), so its failure is first kept as a value inside the one-of scope
+    f = rng.choice([['EA'], ['EA'], ['EC'], []])
+    lab = rng.choice(['k', 'k', 'o'])
+    return [N(), N([['a', I(0)]], beh=['str', lab]), N([['a', I(0)]], fails=f), N([['a', I(0)]]), N([['a', I(2)]]),
+            N([['a', I(0)]], fails=rng.choice([[], [], ['EB']])), N([['v', ['sw', 1, [['k', 2], ['o', 3]]]], ['w', ['oneof', [4, 5]]]])]
+
+
 def _t_nested_rec(rng, I):
     # an inner recurrent subgraph (2 -> 3) inside an outer one (1 -> 5); with 'receven' the inner one iterates again in every
     # outer pass, with 'recur' only in the first
@@ -330,4 +339,5 @@ TEMPLATES = {'retry_outside_reader': _t_retry_outside_reader, 'default_on_start'
              'shared_case_in_flight': _t_shared_case_in_flight, 'shared_between_candidates': _t_shared_between_candidates,
              'nested_oneof': _t_nested_oneof, 'two_scopes_one_node': _t_two_scopes_one_node,
              'rec_two_consumers': _t_rec_two_consumers, 'candidate_two_deps': _t_candidate_two_deps,
-             'failure_beside_running': _t_failure_beside_running, 'nested_rec': _t_nested_rec, 'rec_switch_label_changes': _t_rec_switch_label_changes}
+             'failure_beside_running': _t_failure_beside_running, 'nested_rec': _t_nested_rec, 'rec_switch_label_changes': _t_rec_switch_label_changes,
+             'case_shared_with_candidate': _t_case_shared_with_candidate}
